@@ -397,6 +397,14 @@ def evaluate_arithmetic(op, lval, rval):
         return error.DIV_ZERO
 
 
+def evaluate_concatenation(lval, rval):
+    if isinstance(lval, error.XLError):
+        return lval
+    if isinstance(rval, error.XLError):
+        return rval
+    return str(lval) + str(rval)
+
+
 def evaluate_logic(op, lval, rval):
     if isinstance(lval, error.XLError):
         return lval
